@@ -99,9 +99,16 @@ type seq struct {
 	rw   int  // config.EntryFileRWType of this sequence: 2 = FileWrapV2 (default), 1 = FileWrap
 
 	// crash images inside operations (crash.go)
-	crashOn  bool
-	crashMax int // mutation boundaries tried per armed operation
-	tornPer  int // torn variants per write
+	crashOn bool
+	// payload bytes are masked with this.  In sequences with crash images it is 3: a slot write torn
+	// inside its offset field makes ReadSlice take four payload bytes for a length and allocate that
+	// much before it notices (up to 4 GiB, see finding torn_write_slot); small byte values keep the
+	// allocation of such an image below 64 MiB.
+	byteMask   byte
+	renumbered bool
+	oversize   bool // sizeSave ends with a payload that does not fit an empty file
+	crashMax   int  // mutation boundaries tried per armed operation
+	tornPer    int  // torn variants per write
 
 	// bookkeeping of what was saved (the generator's own view, used to pick arguments)
 	last     uint64   // last index
@@ -645,6 +652,61 @@ func (s *seq) probes() {
 	}
 }
 
+// boundaryProbes: the arguments at the edges of the contract — Term(0), Term just past the end,
+// Entries with size limit 0 and 2^64-1, empty ranges at the first index, the last, one and two
+// past it
+func (s *seq) boundaryProbes() {
+	if s.dead {
+		return
+	}
+	s.c.Count("op:boundary-probes")
+	s.qTerm(0)
+	s.qTerm(s.last + 1)
+	lo := s.first
+	if s.last > 40 && lo < s.last-40 {
+		lo = s.last - 40
+	}
+	s.qEnts(lo, s.last+1, 0)
+	s.qEnts(lo, s.last+1, ^uint64(0))
+	for _, x := range []uint64{s.first, s.last, s.last + 1, s.last + 2} {
+		s.qEnts(x, x, 1<<40)
+	}
+}
+
+// renumber: while the store is closed, rename the entry files so that the file ids continue just
+// below 100000 — the next rotations create 100000.entry, 100001.entry, which sort before
+// 99999.entry in the directory listing.  delta is added to every id.
+func (s *seq) renumber() bool {
+	d := filepath.Join(s.dir, "__raft_entries__")
+	des, err := os.ReadDir(d)
+	if err != nil {
+		return false
+	}
+	var ids []uint64
+	for _, de := range des {
+		if strings.HasSuffix(de.Name(), ".entry") {
+			id, err := strconv.ParseUint(strings.TrimSuffix(de.Name(), ".entry"), 10, 64)
+			if err != nil || id > 1000 {
+				return false
+			}
+			ids = append(ids, id)
+		}
+	}
+	if len(ids) == 0 {
+		return false
+	}
+	sort.Slice(ids, func(i, j int) bool { return ids[i] > ids[j] })
+	delta := 99999 - ids[0] - uint64(s.r.Intn(2))
+	for _, id := range ids { // largest first: no name is taken twice
+		if os.Rename(filepath.Join(d, fmt.Sprintf("%05d.entry", id)), filepath.Join(d, fmt.Sprintf("%05d.entry", id+delta))) != nil {
+			return false
+		}
+	}
+	s.emit(fmt.Sprintf("renumber %d", delta), "ok")
+	s.c.Count("op:renumber-fids-to-100000")
+	return true
+}
+
 func (s *seq) doReopen() {
 	crash := s.r.Chance(30)
 	if crash {
@@ -667,6 +729,9 @@ func (s *seq) doReopen() {
 			return
 		}
 		s.c.Count("reopen:close")
+		if !s.renumbered && (s.id%7 == 3 || s.r.Chance(4)) {
+			s.renumbered = s.renumber()
+		}
 	}
 	if !s.open() {
 		line := s.emit("reopen", "err init")
@@ -679,6 +744,9 @@ func (s *seq) doReopen() {
 		s.nontrivial = true
 	}
 	s.probes()
+	if s.r.Chance(30) {
+		s.boundaryProbes()
+	}
 }
 
 // doCrashRotate: the process dies in the middle of a rotation — the current file is already
@@ -813,12 +881,12 @@ func (s *seq) randPayload(big bool) payload {
 	case s.r.Chance(30):
 		return payload{}
 	case s.r.Chance(3):
-		return payload{run: true, n: 1000 + s.r.Intn(5000), b: byte(s.r.Intn(256))}
+		return payload{run: true, n: 1000 + s.r.Intn(5000), b: byte(s.r.Intn(256)) & s.byteMask}
 	}
 	n := 1 + s.r.Intn(24)
 	d := make([]byte, n)
 	for i := range d {
-		d[i] = byte(s.r.Intn(256))
+		d[i] = byte(s.r.Intn(256)) & s.byteMask
 	}
 	return payload{data: d}
 }
@@ -1086,6 +1154,10 @@ func (s *seq) sizeSave() {
 		if s.r.Chance(20) {
 			sz = maxSize - dataOff - 4 - s.r.Intn(3) // the largest payloads that still fit an empty file
 		}
+		if s.oversize && k == n-1 {
+			sz = maxSize - dataOff - 4 + 1 + s.r.Intn(3) // one that does not: an empty file gets rotated away
+			s.c.Count("save:payload-larger-than-a-file")
+		}
 		gs = append(gs, group{n: 1, term: t, typ: 0, pl: payload{run: true, n: sz, b: byte(1 + s.r.Intn(250))}})
 	}
 	s.crossed = true
@@ -1171,6 +1243,12 @@ func (s *seq) doDelBefore() {
 		}
 	case 1:
 		i = s.commit
+	case 2: // up to the last index and one beyond, when everything is committed
+		if s.commit == s.last {
+			i = s.last + uint64(s.r.Intn(2))
+		} else {
+			i = s.commit
+		}
 	default:
 		if s.commit > 0 {
 			i = 1 + uint64(s.r.Intn(int(s.commit)))
@@ -1272,9 +1350,13 @@ func runSeq(c *hx.Ctx, r *hx.Rng, id int, root string, profile int, rw int) {
 	if v := c.Arg("torn", ""); v != "" {
 		s.tornPer, _ = strconv.Atoi(v)
 	}
-	crashWanted := profile == 5 || (profile <= 2 && s.r.Chance(12))
+	crashWanted := profile == 5 || (profile <= 2 && s.r.Chance(6))
 	if c.Arg("crash", "1") == "0" {
 		crashWanted = false
+	}
+	s.byteMask = 0xff
+	if crashWanted {
+		s.byteMask = 3
 	}
 	switch profile {
 	case 1: // start close to the first slot-table boundary
@@ -1289,7 +1371,7 @@ func runSeq(c *hx.Ctx, r *hx.Rng, id int, root string, profile int, rw int) {
 			gs = append(gs, group{n: m, term: uint64(1 + j), typ: 0, pl: s.randPayload(true)})
 		}
 		if s.r.Chance(30) {
-			gs[0].pl = payload{data: []byte{0xab, byte(s.r.Intn(256))}}
+			gs[0].pl = payload{data: []byte{0xab & s.byteMask, byte(s.r.Intn(256)) & s.byteMask}}
 		}
 		s.doSave(1, gs, 1, 0)
 		s.crossed = n > int(capSlots)
@@ -1303,7 +1385,7 @@ func runSeq(c *hx.Ctx, r *hx.Rng, id int, root string, profile int, rw int) {
 		nops = 6 + s.r.Intn(14)
 	case 5: // crash images inside operations: small logs, or a log prepared so that the armed
 		// operations rotate, or conflict into a rotated file with one or two files behind it
-		nops = 5 + s.r.Intn(8)
+		nops = 4 + s.r.Intn(7)
 		var n int
 		switch s.r.Intn(6) {
 		case 1:
@@ -1316,7 +1398,7 @@ func runSeq(c *hx.Ctx, r *hx.Rng, id int, root string, profile int, rw int) {
 		if n > 0 {
 			pl := payload{}
 			if s.r.Chance(40) {
-				pl = payload{data: []byte{0xc1, byte(s.r.Intn(256))}}
+				pl = payload{data: []byte{0xc1 & s.byteMask, byte(s.r.Intn(256)) & s.byteMask}}
 			}
 			s.doSave(1, []group{{n: n, term: 1, typ: 0, pl: pl}}, 1, 0)
 			s.crossed = n > int(capSlots)
@@ -1385,7 +1467,9 @@ func runSeq(c *hx.Ctx, r *hx.Rng, id int, root string, profile int, rw int) {
 		s.queries(1 + s.r.Intn(4))
 	}
 	if profile == 3 && !s.dead {
+		s.oversize = s.r.Chance(35)
 		s.sizeSave()
+		s.oversize = false
 		s.queries(3)
 		s.doReopen()
 		if !s.dead {
@@ -1408,6 +1492,7 @@ func runSeq(c *hx.Ctx, r *hx.Rng, id int, root string, profile int, rw int) {
 			}
 			s.qSnap()
 			s.qHS()
+			s.boundaryProbes()
 		}
 	}
 	if s.conflictRotated {
@@ -1484,7 +1569,7 @@ func Run(c *hx.Ctx) error {
 			profile = 3
 		case x < 31:
 			profile = 4
-		case x < 46:
+		case x < 41:
 			profile = 5
 		}
 		if v := c.Arg("profile", ""); v != "" {
